@@ -10,6 +10,7 @@ EXPLANATION = (
     "and equals the OASIS MQTT 5.0 table 2-4 (27 rows, rules/mqtt5_properties.json); property(n) maps n to the variant with discriminant n; client and broker tables for the same packet agree; "
     "(R-C04-reason-tables) every reason(u8)→enum / code(enum)→u8 pair is a mutual inverse on the listed rows; "
     "(R-C04-varint-siblings) the hand-copied framing helpers (length, len_len, write_remaining_length, check, parse_fixed_header, read_*/write_* primitives) that are identical on the pinned tree stay signature-equal (thresholds, masks, shift limit). "
+    "(R-C04-flag-bits) the four copies extract/set the same bits of the CONNECT flags, PUBLISH header flags, SUBSCRIBE options and CONNACK flags (masks normalised over shift spelling), and in the CONNECT family every field the reader extracts is one the writer sets and vice versa; "
     "NOT decided (the bulk of the statement): decode(encode(p)) == p, size() == bytes written, exact consumption for all packet values.")
 ASSUMPTIONS = ["rustc MIR construction and constant evaluation are correct", "rules/mqtt5_properties.json transcribes table 2-4 of the OASIS MQTT 5.0 specification"]
 TECHNIQUE = "static analysis: handler-table extraction from MIR switch arms, constant provenance, writer/reader wire-type sequences, sibling signature comparison"
@@ -118,6 +119,7 @@ def run(ctx):
         tables[name] = ctx.guarded("R-C04-prop-table", prop_tables, ctx, ctx.progs[crate], name, pre, spec_by_id) or {}
     ctx.guarded("R-C04-prop-table", cross_crate, ctx, tables)
     ctx.guarded("R-C04-varint-siblings", varint_siblings, ctx)
+    ctx.guarded("R-C04-flag-bits", flag_bits, ctx)
 
 
 # ------------------------------------------------------------------------------------------
@@ -468,3 +470,105 @@ def varint_siblings(ctx):
                     diff = ["%s: %d vs %d" % (k, s.get(k, 0), rs.get(k, 0)) for k in set(s) | set(rs) if s.get(k, 0) != rs.get(k, 0)]
                     ctx.violation(rule, "%s::%s" % (c, fn), "vs " + ref_c, "copies of %s disagree: %s" % (fn, "; ".join(sorted(diff)[:6])), site=b.fn_loc())
     ctx.floor(rule, "sibling comparisons", n, 25)
+
+
+# ------------------------------------------------------------------------------------------
+# R-C04-flag-bits: flag bytes (CONNECT flags, PUBLISH header flags, SUBSCRIBE options, CONNACK flags)
+
+FLAG_MODULES = {"connect": ("v4", "v5"), "publish": ("v4", "v5"), "subscribe": ("v4", "v5"), "connack": ("v4", "v5")}
+FLAG_COPY_PREFIX = {"rumqttd-v4": ("rumqttd", "protocol::v4::"), "rumqttd-v5": ("rumqttd", "protocol::v5::"),
+                    "rumqttc-v4": ("rumqttc", "mqttbytes::v4::"), "rumqttc-v5": ("rumqttc", "v5::mqttbytes::v5::")}
+
+
+def flag_ops(body):
+    """normalised bit operations with a constant operand in one function:
+    reads  = effective masks on the original byte: `x & c` -> c, `(x >> k) & c` -> c << k
+    writes = constants OR-ed in, and left-shift amounts"""
+    masks, consts, shl = set(), set(), set()
+    for bi in reachable(body, (0,)):
+        b = body.blocks[bi]
+        if b.get("cleanup"):
+            continue
+        for st in b["s"]:
+            if "lhs" not in st or st["rv"]["k"] != "bin":
+                continue
+            op = st["rv"]["op"]
+            ka, kb = op_const(st["rv"]["a"]), op_const(st["rv"]["b"])
+            k, other = (kb, st["rv"]["a"]) if kb is not None and "v" in kb else ((ka, st["rv"]["b"]) if ka is not None and "v" in ka else (None, None))
+            if k is None:
+                continue
+            c = k["v"]
+            if op == "BitAnd":
+                pre = 0
+                l = op_local(other)
+                d = single_def(body, l) if l is not None else None
+                if d and d[2] == "assign" and d[3]["rv"]["k"] == "bin" and d[3]["rv"]["op"] in ("Shr", "ShrUnchecked"):
+                    ks = op_const(d[3]["rv"]["b"])
+                    if ks is not None and "v" in ks:
+                        pre = ks["v"]
+                masks.add((c << pre) & 0xFF if c < 256 else c)
+            elif op == "BitOr":
+                consts.add(c)
+            elif op in ("Shl", "ShlUnchecked") and kb is not None:
+                shl.add(c)
+    return masks, consts, shl
+
+
+def flag_bits(ctx):
+    """(A) the four hand-copied codecs extract and set the same bits in the same flag bytes;
+    (B) in the CONNECT family every bit/field the reader extracts is one the writer sets, and vice versa
+    (mask == OR-ed constant, or lowest bit of the mask == shift amount of the written field)."""
+    rule = "R-C04-flag-bits"
+    table = {}
+    for name, (crate, pre) in FLAG_COPY_PREFIX.items():
+        prog = ctx.progs[crate]
+        ver = name[-2:]
+        for mod in FLAG_MODULES:
+            r = (set(), set(), set())
+            w = (set(), set(), set())
+            nfn = 0
+            for b in prog.A.values():
+                if not b.id.startswith(pre + mod + "::") or b.kind not in ("Fn", "AssocFn"):
+                    continue
+                fn = b.name or ""
+                tgt = r if fn.startswith("read") else (w if fn.startswith("write") else None)
+                if tgt is None:
+                    continue
+                nfn += 1
+                m, c, s = flag_ops(b)
+                tgt[0].update(m); tgt[1].update(c); tgt[2].update(s)
+            table[(mod, ver, name)] = (frozenset(r[0]), frozenset(w[1]), frozenset(w[2]), nfn)
+    # (A) cross-copy
+    groups = 0
+    for mod in FLAG_MODULES:
+        for ver in ("v4", "v5"):
+            rows = [(name, v) for (m, vv, name), v in table.items() if m == mod and vv == ver]
+            if mod in ("connect", "publish", "connack"):
+                rows = [(name, v) for (m, vv, name), v in table.items() if m == mod]   # identical in both versions
+                if ver == "v5":
+                    continue
+            ctx.floor(rule, "codec copies of %s (%s)" % (mod, ver), len(rows), 2)
+            ref_name, ref = rows[0]
+            groups += 1
+            for name, v in rows[1:]:
+                if v[:3] == ref[:3]:
+                    ctx.ok(rule, "%s::%s" % (name, mod), "flag bits agree with %s (read masks %s, written constants %s, shifts %s)" % (ref_name, sorted(v[0]), sorted(v[1]), sorted(v[2])))
+                else:
+                    ctx.violation(rule, "%s::%s" % (name, mod), "flag bits differ from " + ref_name,
+                                  "%s: read masks %s / OR-ed constants %s / shifts %s, but %s has %s / %s / %s: the copies no longer agree on the wire layout of the flag byte"
+                                  % (name, sorted(v[0]), sorted(v[1]), sorted(v[2]), ref_name, sorted(ref[0]), sorted(ref[1]), sorted(ref[2])))
+    ctx.floor(rule, "flag-byte groups compared", groups, 5)
+    # (B) CONNECT family: reader and writer of one copy agree
+    for (mod, ver, name), (masks, consts, shl, nfn) in sorted(table.items()):
+        if mod != "connect":
+            continue
+        ctx.floor(rule, "read/write functions in %s::connect" % name, nfn, 6)
+        unions = {m for m in masks if any(m == (a | b_) and a != m and b_ != m for a in masks for b_ in masks)}
+        fields = masks - unions
+        unmatched_r = sorted(m for m in fields if m not in consts and ((m & -m).bit_length() - 1) not in shl)
+        unmatched_w = sorted(c for c in consts if c not in fields) + sorted("<<%d" % s for s in shl if not any(((m & -m).bit_length() - 1) == s for m in fields))
+        if unmatched_r or unmatched_w:
+            ctx.violation(rule, "%s::connect" % name, "reader and writer disagree on CONNECT flag bits",
+                          "%s: bits extracted by the readers but never set by the writers: %s; set by the writers but never extracted: %s" % (name, unmatched_r, unmatched_w))
+        else:
+            ctx.ok(rule, "%s::connect" % name, "every CONNECT flag field read (%s) is written (constants %s, shifts %s) and vice versa" % (sorted(fields), sorted(consts), sorted(shl)))
